@@ -168,19 +168,25 @@ class Model:
             v.notes.append('top-level unparseable')
             return loaded
         loaded[self.top] = ents
-        work = [self.top]
-        while work:
-            mp = work.pop(0)
-            mdir = os.path.dirname(mp)
-            for e in loaded[mp]:
-                if e['tag'] != 'MANIFEST':
-                    continue
-                full = pjoin(mdir, e['path'])
-                if full == mp or full in loaded:
-                    continue
-                sd = os.path.dirname(full)
-                if not (psw(subpath, sd) or (recursive and psw(sd, subpath))):
-                    continue
+        # pass by pass: a sub-Manifest is accepted only if it matches EVERY MANIFEST entry
+        # that the Manifests accepted so far hold for it
+        while True:
+            cand = {}
+            for mp in list(loaded):
+                mdir = os.path.dirname(mp)
+                for e in loaded[mp]:
+                    if e['tag'] != 'MANIFEST':
+                        continue
+                    full = pjoin(mdir, e['path'])
+                    if full == mp or full in loaded or full in v.chain:
+                        continue
+                    sd = os.path.dirname(full)
+                    if not (psw(subpath, sd) or (recursive and psw(sd, subpath))):
+                        continue
+                    cand.setdefault(full, []).append(e)
+            if not cand:
+                break
+            for full in sorted(cand):
                 fi = probe(self._p(full))
                 if fi.err == 'ENOTDIR':
                     v.zones.append('manifest-beneath-file')
@@ -188,10 +194,11 @@ class Model:
                     continue
                 if fi.err is not None:
                     v.oserr.add(errno.errorcode.get(fi.err, str(fi.err)))
-                why = entry_matches(fi, e)
-                if why is not None:
+                whys = [entry_matches(fi, e) for e in cand[full]]
+                whys = [w_ for w_ in whys if w_ is not None]
+                if whys:
                     v.chain.append(full)
-                    v.chain_why[full] = why
+                    v.chain_why[full] = whys[0]
                     continue
                 sub, raw = self.read_manifest(full)
                 if sub is None:
@@ -199,7 +206,6 @@ class Model:
                     v.zones.append('registered-manifest-unparseable')
                     continue
                 loaded[full] = sub
-                work.append(full)
         for ents in loaded.values():
             for e in ents:
                 for h in e.get('sums', {}):
